@@ -20,7 +20,7 @@ import ast
 from engine.cfg import call_name, cfg_of, is_catch_all
 from engine.errors import AnalysisError
 from engine.repo import walk_no_nested
-from engine.util import calls_in, dotted, local_assignments, roots, unparse
+from engine.util import calls_in, dotted, local_assignments, roots, unparse, xsrc
 
 ID = 'C13'
 PARSE_FUNCS = {'fromstring', 'parse', 'XML', 'iterparse', 'fromstringlist', 'HTML'}
@@ -196,9 +196,9 @@ def run(ctx):  # noqa: C901, PLR0912, PLR0915
            fi=rd, witness=[g2.facts_at(n) for n, _ in vcalls])
     vn = repo.func('sdc11073.pysoap.msgreader.validate_node')
     ctx.ob('C13.R2', 'validate_node raises', any(isinstance(n, ast.Raise) for n in walk_no_nested(vn.node)) and
-           'assertValid' in unparse(vn.node), 'validate_node turns a schema violation into ValidationError', fi=vn)
+           'assertValid' in xsrc(vn), 'validate_node turns a schema violation into ValidationError', fi=vn)
     mv = repo.func('sdc11073.pysoap.msgreader.MessageReader._validate_node')
-    facts_ok = 'self._validate' in unparse(mv.node) and 'validate_node' in unparse(mv.node)
+    facts_ok = 'self._validate' in xsrc(mv) and 'validate_node' in xsrc(mv)
     ctx.ob('C13.R2', '_validate_node gate', facts_ok, '_validate_node is gated only by the constructor flag', fi=mv)
 
     # ------------------------------------------------------------------ R3
